@@ -103,7 +103,13 @@ pub fn decode(bytes: &[u8]) -> Case {
     let (sent, _) = gen_conv_sentence(&mut u, &mut names, &inner);
     let mut stats = RenderStats::default();
     let occs = stable_shuffle(&mut u, &sent.named);
-    let blocks = named_blocks(&mut u, &occs, &RenderCfg::default(), &mut stats);
+    let mut blocks = named_blocks(&mut u, &occs, &RenderCfg::default(), &mut stats);
+    // sometimes a named block is left out: the line may then be incomplete, and the error
+    // message is looked at as well
+    if !blocks.is_empty() && u.chance(30) {
+        let at = u.below(blocks.len());
+        blocks.remove(at);
+    }
     // words may end up in another positional's slot: keep them valid for every target type
     let mut words: Vec<Vec<u8>> = sent
         .words
@@ -172,9 +178,23 @@ pub fn decode(bytes: &[u8]) -> Case {
     ];
     if let Some(c) = &cmd_name {
         nasty.push(c.as_bytes().to_vec());
+        // a typo of the command name
+        let mut t: Vec<char> = c.chars().collect();
+        if t.len() >= 3 {
+            t.swap(1, 2);
+            nasty.push(t.into_iter().collect::<String>().into_bytes());
+        }
     }
     for l in root.body.named_leaves(true) {
         nasty.push(l.first_name().into_bytes());
+        // a typo of a declared long name: what an error message would offer a correction for
+        if let Some(long) = l.longs.first() {
+            let n = long.chars().count();
+            if n >= 4 {
+                let cut: String = long.chars().take(n - 1).collect();
+                nasty.push(format!("--{}", cut).into_bytes());
+            }
+        }
         if l.is_arg() {
             nasty.push(format!("{}=zz", l.first_name()).into_bytes());
         }
@@ -331,6 +351,24 @@ impl Prop for C09 {
                 "item-after-dashdash-treated-as-request",
                 format!("{:?} -> stdout {:?}", show_argv(&case.argv), text),
             );
+        }
+
+        // an error message never presents an item from the right of `--` as a mistyped flag,
+        // argument or command
+        if let (Some(p), Outcome::Stderr(t)) = (case.dd, &out) {
+            if t.contains("did you mean") {
+                if let Some(tok) = t.split('`').nth(1) {
+                    let on_right = right.iter().any(|w| w.as_slice() == tok.as_bytes());
+                    let on_left = case.argv[..p].iter().any(|w| w.as_slice() == tok.as_bytes());
+                    if on_right && !on_left && !tok.is_empty() {
+                        return Verdict::fail(
+                            "item-after-dashdash-treated-as-mistyped-name",
+                            format!("{:?} -> stderr {:?}", show_argv(&case.argv), t),
+                        );
+                    }
+                }
+            }
+            ctx.class("rejected-with-dashdash");
         }
 
         // (i) metamorphic replacement of the right side
